@@ -207,3 +207,84 @@ Proof.
   destruct Hin' as [Hin'|E]; [|contradiction].
   eapply unchanged_passes_proof; eassumption.
 Qed.
+
+(* ------------------------------------------------------------------ naming never gives up *)
+(* decimal rendering is injective on the non-negative integers: reading the digits back gives the number *)
+Definition undec (s : str) : Z := fold_left (fun a c => a * 10 + (c - 48)) s 0.
+
+Lemma dec_digits_undec fuel : forall n acc, 0 <= n < 10 ^ Z.of_nat fuel ->
+  fold_left (fun a c => a * 10 + (c - 48)) (dec_digits fuel n acc) 0 = fold_left (fun a c => a * 10 + (c - 48)) acc n.
+Proof.
+  induction fuel as [|f IH]; intros n acc Hn.
+  - cbn [dec_digits]. change (10 ^ Z.of_nat 0) with 1 in Hn. replace n with 0 by lia. reflexivity.
+  - cbn [dec_digits]. destruct (Z.ltb_spec n 10) as [Hlt|Hge].
+    + cbn [fold_left]. f_equal. rewrite Z.mod_small by lia. lia.
+    + rewrite IH.
+      * cbn [fold_left]. f_equal. pose proof (Z.div_mod n 10 ltac:(lia)). lia.
+      * rewrite Nat2Z.inj_succ, Z.pow_succ_r in Hn by lia. split; [apply Z.div_pos; lia|]. apply Z.div_lt_upper_bound; lia.
+Qed.
+
+Lemma undec_dec n : 0 <= n -> undec (dec_of_Z n) = n.
+Proof.
+  intro Hn. unfold undec, dec_of_Z. replace (Z.ltb n 0) with false by (symmetry; apply Z.ltb_ge; lia).
+  rewrite dec_digits_undec; [reflexivity|]. split; [exact Hn|].
+  destruct (Z.eq_dec n 0) as [->|Hnz]; [cbn; lia|].
+  rewrite Nat2Z.inj_succ, Z2Nat.id by (apply Z.log2_nonneg).
+  pose proof (Z.log2_spec n ltac:(lia)) as [_ Hu].
+  eapply Z.lt_le_trans; [exact Hu|]. apply Z.pow_le_mono_l. lia.
+Qed.
+
+Lemma dec_of_Z_inj a b : 0 <= a -> 0 <= b -> dec_of_Z a = dec_of_Z b -> a = b.
+Proof. intros Ha Hb H. rewrite <- (undec_dec a Ha), <- (undec_dec b Hb), H. reflexivity. Qed.
+
+Lemma map_NoDup_in {A B} (f : A -> B) l : (forall x y, In x l -> In y l -> f x = f y -> x = y) -> NoDup l -> NoDup (map f l).
+Proof.
+  induction l as [|a l IH]; intros Hinj Hnd; cbn [map]; [constructor|]. inversion Hnd; subst. constructor.
+  - intro Hin. apply in_map_iff in Hin as [y [Hy Hin]]. assert (y = a) by (apply Hinj; [right; exact Hin|left; reflexivity|exact Hy]).
+    subst. contradiction.
+  - apply IH; [|assumption]. intros x y Hx Hy. apply Hinj; right; assumption.
+Qed.
+
+Lemma qualify_none fuel base names : forall q, qualify fuel base names q = None ->
+  forall i, (i < fuel)%nat -> In (base ++ dec_of_Z (q + 1 + Z.of_nat i)) names.
+Proof.
+  induction fuel as [|f IH]; intros q H i Hi; [lia|]. cbn [qualify] in H.
+  destruct (mem_str (base ++ dec_of_Z (q + 1)) names) eqn:E; [|discriminate].
+  destruct i as [|i].
+  - apply mem_str_In. replace (q + 1 + Z.of_nat 0) with (q + 1) by lia. exact E.
+  - specialize (IH (q + 1) H i ltac:(lia)). replace (q + 1 + Z.of_nat (S i)) with (q + 1 + 1 + Z.of_nat i) by lia. exact IH.
+Qed.
+
+Lemma qualify_some base names q : 0 <= q -> exists n q', qualify (S (length names)) base names q = Some (n, q') /\ q <= q'.
+Proof.
+  intro Hq. destruct (qualify (S (length names)) base names q) as [[n q']|] eqn:E.
+  - exists n, q'. split; [reflexivity|].
+    clear -E. revert q E. generalize (S (length names)). induction n0 as [|f IH]; intros q E; [discriminate|].
+    cbn [qualify] in E. destruct (mem_str _ names); [specialize (IH _ E); lia|]. injection E as _ <-. lia.
+  - exfalso. pose proof (qualify_none _ _ _ _ E) as Hall.
+    set (cands := map (fun i => base ++ dec_of_Z (q + 1 + Z.of_nat i)) (seq 0 (S (length names)))).
+    assert (Hnd : NoDup cands).
+    { unfold cands. apply map_NoDup_in; [|apply seq_NoDup].
+      intros i j _ _ Hij. apply app_inv_head in Hij.
+      assert (q + 1 + Z.of_nat i = q + 1 + Z.of_nat j) by (apply dec_of_Z_inj; [lia|lia|exact Hij]). lia. }
+    assert (Hincl : incl cands names).
+    { intros c Hc. unfold cands in Hc. apply in_map_iff in Hc as [i [<- Hi]]. apply in_seq in Hi. apply Hall. lia. }
+    pose proof (NoDup_incl_length Hnd Hincl) as Hlen. unfold cands in Hlen. rewrite map_length, seq_length in Hlen.
+    exact (Nat.nle_succ_diag_l _ Hlen).
+Qed.
+
+(* TestGenerator.test_name always terminates with a name: at most len(names) re-qualifications are needed *)
+Theorem test_name_total idc names q b : 0 <= q ->
+  exists n names' q', test_name idc names q b = Some (n, names', q') /\ q <= q'.
+Proof.
+  intro Hq. unfold test_name. destruct (mem_str (sanitize idc b) names).
+  - destruct (qualify_some (sanitize idc b) names q Hq) as (n & q' & -> & Hle). exists n, (names ++ [n]), q'. split; [reflexivity|exact Hle].
+  - exists (sanitize idc b), (names ++ [sanitize idc b]), q. split; [reflexivity|lia].
+Qed.
+
+Theorem test_names_total idc bs : forall names q, 0 <= q -> exists ns, test_names idc names q bs = Some ns /\ length ns = length bs.
+Proof.
+  induction bs as [|b bs IH]; intros names q Hq; cbn [test_names]; [exists []; split; reflexivity|].
+  destruct (test_name_total idc names q b Hq) as (n & names' & q' & -> & Hle).
+  destruct (IH names' q' ltac:(lia)) as (ns & -> & Hl). exists (n :: ns). split; [reflexivity|cbn; lia].
+Qed.
